@@ -133,11 +133,13 @@ def _worker_main(wfd, machine, libpath, indices, verif_seed, prop, opts):
             break
         out.write(json.dumps({"t": "start", "i": idx}) + "\n")
         signal.setitimer(signal.ITIMER_REAL, per_run_timeout)
+        t_run = time.time()
         try:
             res = run_one(machine, node, verif_seed, prop, idx, opts)
         except Exception:
             res = {"kind": "harness_error", "trace": traceback.format_exc()}
         signal.setitimer(signal.ITIMER_REAL, 0)
+        res["dt"] = round(time.time() - t_run, 3)    # wall time of the run: reporting only, never part of a digest
         res["t"] = "end"
         res["i"] = idx
         out.write(json.dumps(res, default=_json_default) + "\n")
